@@ -30,7 +30,9 @@ CHECKS = {
               "received_outcome (an accepted contribution collects exactly when it is the t-th), received_accepted_only_if (batch id must be the "
               "current one, sender a quorum member still awaited: no double counting, no stale batch), signerr_outcome (cancel exactly when failed "
               "exceeds n-t), restart_goes_idle. All n, t, payloads, arguments; no bound on run length. Tie: regenerated tables + fsmdiff as for C05 "
-              "(signing alphabet incl. stale batch ids, repeats, unknown ids), and Go-side monitors of each clause on every explored real transition."),
+              "(signing alphabet incl. stale batch ids, repeats, unknown ids, an answer eight days late), and Go-side monitors of each clause on every explored real transition. "
+              "The return to idle after a collected or failed batch is the node's doing: nodediff (real node vs the Lean node model on every message) is part of this check, "
+              "with the monitor returns_to_idle (after a batch this node reconstructed and announced its stored round is idle)."),
         ref='7 C06', note=FSM_NOTE),
     'C19': dict(
         technique='Lean 4 theorems over the generated tables (pool totality by decide, restore = identity on instances by closure + engine lemma) + differential dump/restore correspondence fsmdiff',
